@@ -136,6 +136,18 @@ def mk_GARBAGEBANNER(label):
     return _faulty(label, 0, ('garbage', 64, 3))
 
 
+def mk_EMPTYPAYLOAD(label):
+    return _faulty(label, 1, ('emptypayload',))
+
+
+def mk_PADOVERRUN(label):
+    return _faulty(label, 1, ('padoverrun',))
+
+
+def mk_PROBEEMPTYPAYLOAD(label):
+    return _faulty(label, 2, ('emptypayload',), base=mk_RSA2048, conn=1)
+
+
 def mk_BADCRC(label):
     return peer.Server(label=label, banner=b'SSH-1.5-OpenSSH_3.4', ssh1={'cmask': 0x4c, 'amask': 0x2c, 'bad_crc': True}, versions_differ=True)
 
@@ -153,6 +165,7 @@ FAILING = {
     'UNRESOLVABLE': None, 'REFUSED': mk_REFUSED, 'CONNTIMEOUT': mk_CONNTIMEOUT, 'SILENT': mk_SILENT, 'CLOSEEARLY': mk_CLOSEEARLY,
     'CLOSEAFTERBANNER': mk_CLOSEAFTERBANNER, 'BADBLOCK': mk_BADBLOCK, 'TRUNCKEXINIT': mk_TRUNCKEXINIT, 'WRONGFIRST': mk_WRONGFIRST,
     'GARBAGEBANNER': mk_GARBAGEBANNER, 'BADCRC': mk_BADCRC, 'PROBEGARBAGE': mk_PROBEGARBAGE, 'PROBEBADBLOCK': mk_PROBEBADBLOCK,
+    'EMPTYPAYLOAD': mk_EMPTYPAYLOAD, 'PADOVERRUN': mk_PADOVERRUN, 'PROBEEMPTYPAYLOAD': mk_PROBEEMPTYPAYLOAD,
 }
 
 ALL = dict(HEALTHY)
